@@ -441,7 +441,12 @@ class MementoFunction(MementoFunctionBase):
             entry = MementoFunction._global_fn_version_cache[
                 self.qualified_name_without_version
             ]
-            if entry.as_of_generation == MementoFunction._global_fn_generation:
+            # The cached version can only be trusted by an instance that has hash rules with
+            # which to notice changes to global variables and plain functions.
+            if (
+                entry.as_of_generation == MementoFunction._global_fn_generation
+                and self._hash_rules
+            ):
                 changed_rules = [rule for rule in self._hash_rules if rule.did_change()]
                 if len(changed_rules) > 0:
                     # Global variables or local functions may have changed since the last time
@@ -455,7 +460,7 @@ class MementoFunction(MementoFunctionBase):
                     )
                 else:
                     if self._calculated_version is None:
-                        self._calculated_version = entry.version()
+                        self._calculated_version = entry.version
                         self._update_fn_reference()
                     return
 
